@@ -198,11 +198,24 @@ def run(P: Program, R: Report, tier: str) -> None:
         if seen and ok_all:
             R.ok("R07.6", f, f.node, f"{c.name}: the caller's pixels reach the primitive that records them", via="dataflow")
     # ---- R07.7 query shape
+    from ..resolve import Resolver
+
     gp = tracks.methods.get("get_pixels")
     if gp is None:
         raise AnalysisError("Tracks.get_pixels not found")
-    src = norm(gp.node)
-    ok = "self.get_time(node)" in src and "self.segmentation[time] == node" in src.replace("self.segmentation[self.get_time(node)]", "self.segmentation[time]")
-    R.check(ok, "R07.7", gp, gp.node, "get_pixels compares the node's own frame with the node id", src[:100], via="syntax")
-    ret = [s for s in ast.walk(gp.node) if isinstance(s, ast.Return) and isinstance(s.value, ast.Tuple)]
-    R.check(bool(ret) and "time" in norm(ret[-1].value.elts[0]), "R07.7", gp, gp.node, "get_pixels prepends the time index", "", via="syntax")
+    rs = Resolver(P, gp)
+    node_p = gp.params[1]
+    cmps = [c for c in ast.walk(gp.node) if isinstance(c, ast.Compare) and len(c.ops) == 1 and isinstance(c.ops[0], ast.Eq) and "segmentation[" in rs.text(c.left)]
+    if not cmps:
+        R.undecided("R07.7", gp, gp.node, "get_pixels selects the node's pixels by comparing a frame with the node id", "shape not recognised")
+    for c in cmps:
+        left, right = rs.text(c.left), rs.text(c.comparators[0])
+        good = left == f"self.segmentation[self.get_time({node_p})]" and right == node_p
+        R.check(good, "R07.7", gp, c, "get_pixels compares the node's own frame with the node id",
+                f"compares `{left}` with `{right}`", via="provenance")
+    rets = [r for r in ast.walk(gp.node) if isinstance(r, ast.Return) and r.value is not None and norm(r.value) != "None"]
+    for r in rets:
+        t = rs.expand(r.value)
+        if isinstance(t, ast.Tuple) and t.elts:
+            R.check(f"self.get_time({node_p})" in norm(t.elts[0]), "R07.7", gp, r, "get_pixels prepends the node's time index",
+                    norm(t.elts[0])[:80], via="provenance")
